@@ -23,6 +23,7 @@ func cmdReplay(args []string) int {
 		PackageDir string         `json:"package_dir"`
 		Label      string         `json:"label"`
 		Inputs     map[string]any `json:"inputs"`
+		Repeat     int            `json:"repeat"`
 	}
 	if err := json.Unmarshal(b, &rp); err != nil {
 		fmt.Fprintln(os.Stderr, err)
@@ -45,7 +46,7 @@ func cmdReplay(args []string) int {
 		return 2
 	}
 	r.harnesses = []harness{{dir: rp.PackageDir, pkg: p, fn: p.Func(rp.Harness)}}
-	res, err := r.runNative(map[string][]vtCase{rp.PackageDir: {{ID: "r1", Harness: rp.Harness, Inputs: rp.Inputs}}})
+	res, err := r.runNative(map[string][]vtCase{rp.PackageDir: {{ID: "r1", Harness: rp.Harness, Inputs: rp.Inputs, Repeat: rp.Repeat}}})
 	if err != nil {
 		fmt.Fprintln(os.Stderr, err)
 		return 2
